@@ -122,6 +122,13 @@ def t_swap(a: float, b: float, k: float) -> float:
     return k * lo / (1.0 + hi)
 
 
+def t_localimp(k: float, s: float) -> float:
+    # the import inside the function binds t_ma1 to trans_b's k / (1 + s); this module's own t_ma1 is k * s
+    from mon.fnlib.trans_b import t_ma1
+
+    return t_ma1(k, s) + 0.5 * k
+
+
 def t_local(s: float, k: float) -> float:
     a = s * s
     b = a + k
@@ -201,5 +208,5 @@ def u_exp(s: float, k: float) -> float:
     return k * math.exp(-s)
 
 
-RATES = {1: [t_const], 2: [t_ma1, t_cond, t_chain, t_elif, t_nested, t_local, t_time, t_cap], 3: [t_ma2, t_mm, t_inh, t_hill, t_nestif, t_guarded, t_share, t_eqgate, t_window, t_postcall, t_swap], 4: [t_rev]}
+RATES = {1: [t_const], 2: [t_ma1, t_cond, t_chain, t_elif, t_nested, t_local, t_time, t_cap, t_localimp], 3: [t_ma2, t_mm, t_inh, t_hill, t_nestif, t_guarded, t_share, t_eqgate, t_window, t_postcall, t_swap], 4: [t_rev]}
 UNTRANSLATABLE = [u_loop, u_andor, u_aug, u_exp]
